@@ -170,6 +170,10 @@ theorem argsPart_allowed (t : TailSpec) (k : Nat) (w : List WVal) : ErrIn Allowe
 theorem kwargsPart_allowed (t : TailSpec) (k : Nat) (w : List WVal) : ErrIn Allowed (kwargsPart t k w) := by
   unfold kwargsPart; exact ErrIn.ite (checkKwargs_allowed _ _) (ErrIn.ok _)
 
+theorem encTripleGate_allowed (a k s : WVal) : ErrIn Allowed (encTripleGate a k s) := by
+  unfold encTripleGate
+  exact ErrIn.ite (ErrIn.fail _ allowed_protocol) (ErrIn.pure _)
+
 theorem parseTail_allowed (O : Oracles) (t : TailSpec) (k : Nat) (d : Dict) (w : List WVal) :
     ErrIn Allowed (parseTail O t k d w) := by
   unfold parseTail
@@ -177,6 +181,7 @@ theorem parseTail_allowed (O : Oracles) (t : TailSpec) (k : Nat) (d : Dict) (w :
   · apply ErrIn.bind (encGet_allowed _ _ _); intro _ _
     apply ErrIn.bind (encGet_allowed _ _ _); intro _ _
     apply ErrIn.bind (encGet_allowed _ _ _); intro _ _
+    apply ErrIn.bind (encTripleGate_allowed _ _ _); intro _ _
     exact ErrIn.pure _
   · apply ErrIn.bind (argsPart_allowed _ _ _); intro _ _
     apply ErrIn.bind (kwargsPart_allowed _ _ _); intro _ _
@@ -188,24 +193,6 @@ theorem kwargsCheck_allowed (m : Msg) : ErrIn Allowed (kwargsCheck m) := by
   · exact ErrIn.pure _
   · exact ErrIn.pure _
   · exact ErrIn.fail _ allowed_protocol
-
-/-- everything `parse` does before calling the constructor raises only the library's own errors -/
-theorem parseStage_allowed (σ : Schema) (O : Oracles) (w : List WVal) (hnr : σ.noRoles = true) :
-    ErrIn Allowed (σ.parseStage O w) := by
-  have hr : ∀ s ∈ σ.opts, s.ty.isRoles = false := by
-    simp only [Schema.noRoles, List.all_eq_true, Bool.not_eq_true'] at hnr
-    exact hnr
-  unfold Schema.parseStage
-  apply ErrIn.ite (ErrIn.fail _ allowed_protocol)
-  apply ErrIn.bind (parsePos_allowed O w _ _); intro _ _
-  apply ErrIn.bind
-  · unfold Schema.tailPart
-    split
-    · exact parseTail_allowed O _ _ _ _
-    · exact ErrIn.pure _
-  intro _ _
-  apply ErrIn.bind (parseOpts_allowed O _ _ hr); intro _ _
-  exact ErrIn.pure _
 
 def AssertOrAllowed (c : ErrClass) : Prop := c.allowed = true ∨ c = .assertion
 
@@ -265,81 +252,87 @@ end Abverif.Wamp
 namespace Abverif.Wamp
 open Schema
 
-/-! ### HELLO / WELCOME: role features can additionally raise `TypeError` -/
+/-! ### HELLO / WELCOME: the role dictionaries raise only `ProtocolError` too (a feature named `self` is an unknown
+feature like any other since `self` is positional-only in the `Role*Features` constructors) -/
 
-def AllowedOrType (c : ErrClass) : Prop := c.allowed = true ∨ c = .typeError
-
-theorem aot_protocol : AllowedOrType .protocol := Or.inl rfl
-theorem aot_type : AllowedOrType .typeError := Or.inr rfl
-
-theorem featuresCheck_classes (site : Str) (known : List Str) (fd : Dict) :
-    ErrIn AllowedOrType (featuresCheck site known fd) := by
+theorem featuresCheck_allowed (site : Str) (known : List Str) (fd : Dict) :
+    ErrIn Allowed (featuresCheck site known fd) := by
   unfold featuresCheck
-  exact ErrIn.ite (ErrIn.fail _ aot_type) (ErrIn.ite (ErrIn.fail _ aot_protocol) (ErrIn.ok _))
+  exact ErrIn.ite (ErrIn.fail _ allowed_protocol) (ErrIn.ok _)
 
-theorem rolesLoop_classes (site : Str) (allowed : List Str) (feats : List (Str × List Str)) :
-    ∀ dr : Dict, ErrIn AllowedOrType (rolesLoop site allowed feats dr) := by
+theorem rolesLoop_allowed (site : Str) (allowed : List Str) (feats : List (Str × List Str)) :
+    ∀ dr : Dict, ErrIn Allowed (rolesLoop site allowed feats dr) := by
   intro dr
   induction dr with
   | nil => exact ErrIn.ok _
   | cons kv t ih =>
     obtain ⟨role, rv⟩ := kv
     unfold rolesLoop
-    refine ErrIn.ite (ErrIn.fail _ aot_protocol) ?_
+    refine ErrIn.ite (ErrIn.fail _ allowed_protocol) ?_
     split
     · split
       · exact ErrIn.bind ih (fun _ _ => ErrIn.pure _)
-      · apply ErrIn.bind (featuresCheck_classes _ _ _); intro _ _
+      · apply ErrIn.bind (featuresCheck_allowed _ _ _); intro _ _
         exact ErrIn.bind ih (fun _ _ => ErrIn.pure _)
-      · exact ErrIn.fail _ aot_protocol
-    · exact ErrIn.fail _ aot_protocol
+      · exact ErrIn.fail _ allowed_protocol
+    · exact ErrIn.fail _ allowed_protocol
 
-theorem rolesCheck_classes (site : Str) (allowed : List Str) (feats : List (Str × List Str)) (v : WVal) :
-    ErrIn AllowedOrType (rolesCheck site allowed feats v) := by
+theorem rolesCheck_allowed (site : Str) (allowed : List Str) (feats : List (Str × List Str)) (v : WVal) :
+    ErrIn Allowed (rolesCheck site allowed feats v) := by
   unfold rolesCheck
   split
-  · exact ErrIn.fail _ aot_protocol
-  · exact ErrIn.bind (rolesLoop_classes _ _ _ _) (fun _ _ => ErrIn.pure _)
-  · exact ErrIn.fail _ aot_protocol
+  · exact ErrIn.fail _ allowed_protocol
+  · exact ErrIn.bind (rolesLoop_allowed _ _ _ _) (fun _ _ => ErrIn.pure _)
+  · exact ErrIn.fail _ allowed_protocol
 
-theorem OTy.check_classes (O : Oracles) (site : Str) (ty : OTy) (v : WVal) :
-    ErrIn AllowedOrType (ty.check O site v) := by
+/-- every option type, `roles` included -/
+theorem OTy.check_allowed' (O : Oracles) (site : Str) (ty : OTy) (v : WVal) :
+    ErrIn Allowed (ty.check O site v) := by
   by_cases hr : ty.isRoles = false
-  · exact (OTy.check_allowed O site ty v hr).mono (fun _ h => Or.inl h)
+  · exact OTy.check_allowed O site ty v hr
   · cases ty <;> simp [OTy.isRoles] at hr
     simp only [OTy.check]
-    exact rolesCheck_classes _ _ _ _
+    exact rolesCheck_allowed _ _ _ _
 
-theorem OptStep.parse_classes (O : Oracles) (d : Dict) (s : OptStep) : ErrIn AllowedOrType (s.parse O d) := by
+theorem OptStep.parse_allowed' (O : Oracles) (d : Dict) (s : OptStep) : ErrIn Allowed (s.parse O d) := by
   unfold OptStep.parse
   split
   · split
-    · exact ErrIn.fail _ aot_protocol
+    · exact ErrIn.fail _ allowed_protocol
     · split
       · exact ErrIn.ok _
-      · exact ErrIn.ite (ErrIn.fail _ aot_protocol) (ErrIn.ok _)
-  · exact OTy.check_classes O _ _ _
+      · exact ErrIn.ite (ErrIn.fail _ allowed_protocol) (ErrIn.ok _)
+  · exact OTy.check_allowed' O _ _ _
 
-theorem parseOpts_classes (O : Oracles) (d : Dict) : ∀ ss : List OptStep, ErrIn AllowedOrType (parseOpts O d ss) := by
+theorem parseOpts_allowed' (O : Oracles) (d : Dict) : ∀ ss : List OptStep, ErrIn Allowed (parseOpts O d ss) := by
   intro ss
   induction ss with
   | nil => exact ErrIn.pure _
   | cons s t ih =>
     unfold parseOpts
-    apply ErrIn.bind (OptStep.parse_classes O d s); intro _ _
+    apply ErrIn.bind (OptStep.parse_allowed' O d s); intro _ _
     exact ErrIn.bind ih (fun _ _ => ErrIn.pure _)
 
-theorem parseStage_classes (σ : Schema) (O : Oracles) (w : List WVal) : ErrIn AllowedOrType (σ.parseStage O w) := by
-  unfold Schema.parseStage
-  refine ErrIn.ite (ErrIn.fail _ aot_protocol) ?_
-  apply ErrIn.bind ((parsePos_allowed O w _ _).mono (fun _ h => Or.inl h)); intro _ _
+/-- the field-by-field part of `parse` raises only the library's own errors — all 25 classes -/
+theorem parseFields_allowed (σ : Schema) (O : Oracles) (w : List WVal) : ErrIn Allowed (σ.parseFields O w) := by
+  unfold Schema.parseFields
+  refine ErrIn.ite (ErrIn.fail _ allowed_protocol) ?_
+  apply ErrIn.bind (parsePos_allowed O w _ _); intro _ _
   apply ErrIn.bind
   · unfold Schema.tailPart
     split
-    · exact (parseTail_allowed O _ _ _ _).mono (fun _ h => Or.inl h)
+    · exact parseTail_allowed O _ _ _ _
     · exact ErrIn.pure _
   intro _ _
-  apply ErrIn.bind (parseOpts_classes O _ _); intro _ _
+  apply ErrIn.bind (parseOpts_allowed' O _ _); intro _ _
   exact ErrIn.pure _
+
+/-- everything `parse` does before calling the constructor raises only the library's own errors -/
+theorem parseStage_allowed (σ : Schema) (O : Oracles) (w : List WVal) : ErrIn Allowed (σ.parseStage O w) := by
+  unfold Schema.parseStage
+  apply ErrIn.bind (parseFields_allowed σ O w); intro m _
+  have hc : ErrIn Allowed (ctorCross .protocol O m σ.pcross) :=
+    (ctorCross_assert .protocol O m σ.pcross).mono (fun c hc => by subst hc; exact allowed_protocol)
+  exact ErrIn.bind hc (fun _ _ => ErrIn.pure _)
 
 end Abverif.Wamp
